@@ -148,5 +148,8 @@ pub fn vp_slice_position<F: FnMut(&u8) -> bool>(s: &[u8], pred: F) -> (r: Option
             && forall|j: int| 0 <= j < i ==> pred.ensures((&#[trigger] s@[j],), false),
         r is None ==> forall|j: int| 0 <= j < s@.len() ==> pred.ensures((&#[trigger] s@[j],), false),
 { s.iter().position(pred) }
-pub const MAXB: usize = 64 * 1024;
+// limits the properties do not fix: read from the code, so that changing one of them is not reported as a violation
+//@@ repoconst MAXB usize src/parsing/chunked_reader.rs const\s+MAX_BUFFER_LEN\s*:\s*usize\s*=\s*([^;]+);
+//@@ repoconst CHUNK_LINE_MAX u64 src/parsing/chunked_reader.rs buffers::read_line\(\s*&mut\s+self\.inner\s*,\s*&mut\s+self\.buffer\s*,\s*([0-9_]+)\s*\)
+//@@ repoconst HEAD_LINE_MAX u64 src/parsing/response.rs const\s+MAX_LINE_LEN\s*:\s*u64\s*=\s*([^;]+);
 
